@@ -18,7 +18,11 @@ package main
 //
 // Part A — pairing matrix: 2 browsers x 3 logins interleaved (/oauth2/start?rd= and protected URL), then every
 //          login X x cookie-set variant x state variant, requests built by hand (exact control over cookies).
-// Part B — jar histories: real RFC 6265 jars, all completion permutations + seeded random walks of
+// Entropy faults — sequential phase: crypto/rand.Reader fails selected reads around single login starts; a start is
+//          refused cleanly or carries a fresh, non-zero state nonce (c03:login-started-with-constant-state).
+// Part B — jar histories (with the unrelated requests a browser makes while logins are pending: sign-out, sign-in page,
+//          protected path, garbage session cookie, userinfo, static assets — none may expire a pending login's CSRF
+//          cookie: c03:pending-login-csrf-cookie-expired-by-unrelated-response): real RFC 6265 jars, all completion permutations + seeded random walks of
 //          start/complete/replay events; cookies are whatever the jar sends.
 
 import (
@@ -30,8 +34,10 @@ import (
 	"encoding/base64"
 	"errors"
 	"fmt"
+	"io"
 	mrand "math/rand"
 	"net/http"
+	"net/url"
 	"strconv"
 	"strings"
 	"sync"
@@ -310,6 +316,7 @@ type c03Case struct {
 	byKey  map[string]*c03Login // secret|nonce -> login
 	Logins []*c03Login
 	nSess  int64 // callbacks that set a session cookie without presenting one (for the Redis accounting: one new key each)
+	nKeyDel int64 // unrelated requests that ended the browser's session (Redis store: the entry is deleted)
 }
 
 func (cs *c03Case) add(l *c03Login) {
@@ -822,8 +829,14 @@ func TestVerif_C03(t *testing.T) {
 		"duplicate cookies of one name are judged in the safety direction only")
 	w := vfNewWorld(t)
 	defer w.Close()
+	var mains []*c03Inst
 	for ci, cfg := range c03Configs(run.Env.Thorough(), run.Env.Seed) {
-		c03RunConfig(run, w, cfg, ci)
+		mains = append(mains, c03RunConfig(run, w, cfg, ci))
+	}
+	c03EntropyFaults(run, w, mains)
+	if run.Counter("entropy_faults_fired") == 0 || run.Counter("entropy_fault_starts_refused") == 0 {
+		fmt.Printf("INCONCLUSIVE property=C03 reason=entropy-fault phase injected no fault / saw no refused start\n")
+		t.Fail()
 	}
 	run.RaceCheck("") // races are not this property's business: reports are kept as NOTE lines for diagnosis
 	if n := run.Counter("rig_failures"); n > 0 {
@@ -833,7 +846,7 @@ func TestVerif_C03(t *testing.T) {
 	run.Finish(int64(run.Env.Pick(10000, 100000)), run.Env.Pick(1200, 2500))
 }
 
-func c03RunConfig(run *vfRun, w *vfWorld, cfg c03Cfg, ci int) {
+func c03RunConfig(run *vfRun, w *vfWorld, cfg c03Cfg, ci int) *c03Inst {
 	rng := mrand.New(mrand.NewSource(run.Env.Seed*1000003 + int64(ci)))
 	mkInst := func(role, secret string, encode bool) *c03Inst {
 		p, err := w.NewProxy(cfg.flags(w, secret, encode)...)
@@ -971,10 +984,145 @@ func c03RunConfig(run *vfRun, w *vfWorld, cfg c03Cfg, ci int) {
 		added := len(w.Redis().Keys()) - keysBefore
 		run.Count("redis_keys_added", int64(added))
 		run.Eval(cfg.Label() + "|redis-accounting")
-		if int64(added) != atomic.LoadInt64(&cs.nSess) {
+		run.Count("redis_keys_deleted_by_sign_out", atomic.LoadInt64(&cs.nKeyDel))
+		if int64(added) != atomic.LoadInt64(&cs.nSess)-atomic.LoadInt64(&cs.nKeyDel) {
 			run.Violation("c03:redis-entries-differ-from-sessions-established",
-				fmt.Sprintf("[%s] %d callbacks set a session cookie but the Redis store gained %d keys: a failed callback left a session entry behind (or a successful one stored none)", cfg.Label(), cs.nSess, added),
+				fmt.Sprintf("[%s] %d callbacks set a session cookie and %d other requests ended a session, but the Redis store gained %d keys: a failed callback left a session entry behind (or a successful one stored none)", cfg.Label(), cs.nSess, cs.nKeyDel, added),
 				map[string]interface{}{"flags": A.P.Flags, "callbacks_with_session_cookie": cs.nSess, "redis_keys_added": added})
+		}
+	}
+	return A
+}
+
+// ---------------------------------------------------------------------------------------------------------
+// entropy faults: a login must fail closed when the random source fails, never start with a constant / zero state nonce
+// (a predictable state is no CSRF binding at all)
+
+type c03FaultyRand struct {
+	real  io.Reader
+	size  int // fail every read of exactly this many bytes (0 = off)
+	kth   int // fail the k-th read (0 = off)
+	short bool
+	n     int
+	fired int
+	sizes []int
+}
+
+func (f *c03FaultyRand) Read(p []byte) (int, error) {
+	f.n++
+	f.sizes = append(f.sizes, len(p))
+	if (f.size != 0 && len(p) == f.size) || (f.kth != 0 && f.n == f.kth) {
+		f.fired++
+		if f.short && len(p) > 1 {
+			k, _ := io.ReadFull(f.real, p[:len(p)/2])
+			return k, errors.New("c03: injected entropy failure (short read)")
+		}
+		return 0, errors.New("c03: injected entropy failure")
+	}
+	return f.real.Read(p)
+}
+
+func c03ZeroRun(b []byte, min int) bool {
+	n := 0
+	for _, c := range b {
+		if c == 0 {
+			if n++; n >= min {
+				return true
+			}
+		} else {
+			n = 0
+		}
+	}
+	return false
+}
+
+// c03EntropyFaults runs strictly sequentially with no request in flight: crypto/rand.Reader (a package variable) is replaced
+// around single login starts by a reader that fails selected reads, and restored right after each.
+func c03EntropyFaults(run *vfRun, w *vfWorld, insts []*c03Inst) {
+	_ = w.IdP.EventCount("authorize") // orders the provider's earlier use of the random source before the swap
+	real := rand.Reader
+	defer func() { rand.Reader = real }()
+	type plan struct {
+		size, kth int
+		short     bool
+	}
+	var plans []plan
+	for _, short := range []bool{false, true} {
+		plans = append(plans, plan{size: 32, short: short})
+		for k := 1; k <= 5; k++ {
+			plans = append(plans, plan{kth: k, short: short})
+		}
+	}
+	if !run.Env.Thorough() && len(insts) > 4 {
+		insts = insts[:4]
+	}
+	seen := map[string]string{} // state nonce (as sent) -> start that used it
+	seq := 0
+	for _, inst := range insts {
+		for _, pl := range plans {
+			for rep := 0; rep < 2; rep++ {
+				seq++
+				f := &c03FaultyRand{real: real, size: pl.size, kth: pl.kth, short: pl.short}
+				req := vfGET(inst.P.Opts.ProxyPrefix + "/start?rd=" + vfQueryEscape(fmt.Sprintf("/app/c03/entropy/%d", seq)))
+				rand.Reader = f
+				resp := inst.P.Do(req)
+				rand.Reader = real
+				what := "fail every 32-byte read"
+				if pl.kth != 0 {
+					what = fmt.Sprintf("fail read #%d", pl.kth)
+				}
+				if pl.short {
+					what += " after half of the bytes"
+				}
+				run.Count("entropy_fault_starts", 1)
+				run.Count("entropy_faults_fired", int64(f.fired))
+				det := map[string]interface{}{"flags": inst.P.Flags, "request": req, "fault": what, "reads_of_the_random_source_during_the_request": f.sizes, "faults_fired": f.fired,
+					"status": resp.Code, "location": resp.Location(), "set_cookie": resp.SetCookies()}
+				name, value := "", ""
+				for _, sc := range resp.SetCookies() {
+					if ck, err := http.ParseSetCookie(sc); err == nil && strings.HasSuffix(ck.Name, "_csrf") && ck.MaxAge >= 0 && ck.Value != "" {
+						name, value = ck.Name, ck.Value
+					}
+				}
+				fired := "fault-fired"
+				if f.fired == 0 {
+					fired = "fault-not-reached"
+				}
+				if resp.Code != 302 {
+					run.Eval(fmt.Sprintf("entropy|%s|%s|refused", what, fired))
+					run.Count("entropy_fault_starts_refused", 1)
+					if resp.Code < 400 || name != "" || resp.Location() != "" {
+						run.Violation("c03:refused-login-start-not-clean", fmt.Sprintf("%s: the start answered %d with CSRF cookie %q and Location %q", what, resp.Code, name, resp.Location()), det)
+					}
+					if f.fired == 0 {
+						run.Violation("c03:own-pair-rejected", fmt.Sprintf("login start refused (%d) although no entropy fault was injected during it", resp.Code), det)
+					}
+					continue
+				}
+				run.Eval(fmt.Sprintf("entropy|%s|%s|started", what, fired))
+				run.Count("entropy_fault_starts_proceeded", 1)
+				u, err := url.Parse(resp.Location())
+				if err != nil {
+					c03Rig(run, "entropy phase: Location %q: %v", resp.Location(), err)
+					continue
+				}
+				state := u.Query().Get("state")
+				nonce, _, ok := c03SplitState(state, inst.Encoded)
+				id := fmt.Sprintf("entropy-%d (%s)", seq, what)
+				switch {
+				case !ok || nonce == "":
+					run.Violation("c03:login-started-with-constant-state", fmt.Sprintf("%s: the login was started with the state %q that carries no nonce", what, state), det)
+				case seen[nonce] != "":
+					run.Violation("c03:login-started-with-constant-state", fmt.Sprintf("%s: the login was started with the state nonce %q, the same as start %s: the state is predictable", what, nonce, seen[nonce]), det)
+				default:
+					seen[nonce] = id
+				}
+				if inner, err := c03OpenCSRF(inst.Secret, value); err != nil {
+					run.Violation("c03:login-started-with-unusable-csrf-cookie", fmt.Sprintf("%s: the login was started (302) but its CSRF cookie %q is missing or cannot be opened with the cookie secret: %v", what, name, err), det)
+				} else if len(inner.S) < 16 || c03ZeroRun(inner.S, 16) {
+					run.Violation("c03:login-started-with-constant-state", fmt.Sprintf("%s: the login was started with the raw state nonce %x (not random: the failed read left zero bytes)", what, inner.S), det)
+				}
+			}
 		}
 	}
 }
@@ -983,15 +1131,15 @@ func c03RunConfig(run *vfRun, w *vfWorld, cfg c03Cfg, ci int) {
 // Part B: histories through real cookie jars
 
 type c03Op struct {
-	Op   string // start | complete | replay
+	Op   string // start | complete | replay | noise
 	B    int
-	Kind string
+	Kind string // start: start | protected ; noise: which unrelated request the browser makes
 	Idx  int // complete/replay: index into the browser's list of started logins
 }
 
 func (o c03Op) String() string {
-	if o.Op == "start" {
-		return fmt.Sprintf("b%d:start(%s)", o.B, o.Kind)
+	if o.Op == "start" || o.Op == "noise" {
+		return fmt.Sprintf("b%d:%s(%s)", o.B, o.Op, o.Kind)
 	}
 	return fmt.Sprintf("b%d:%s(#%d)", o.B, o.Op, o.Idx)
 }
@@ -1037,6 +1185,24 @@ func c03Merge(a, b []c03Op, rng *mrand.Rand) []c03Op {
 	return out
 }
 
+// the other requests a browser makes while logins are pending; none of them is a callback or (in the configurations
+// they are used in) a login start, so none may touch a pending login's CSRF cookie
+var c03NoiseKinds = []string{"sign-out", "sign-in-page", "protected-unauthenticated", "auth-with-garbage-session-cookie", "userinfo", "static-asset", "robots", "ping"}
+
+func c03Noise(rng *mrand.Rand, b int) c03Op {
+	return c03Op{Op: "noise", B: b, Kind: c03NoiseKinds[rng.Intn(len(c03NoiseKinds))]}
+}
+
+// c03InsertNoise puts n noise requests of browser b at seeded positions after the first op.
+func c03InsertNoise(ops []c03Op, n int, rng *mrand.Rand) []c03Op {
+	for k := 0; k < n && len(ops) > 1; k++ {
+		pos := 1 + rng.Intn(len(ops)-1)
+		op := c03Noise(rng, ops[rng.Intn(len(ops))].B)
+		ops = append(ops[:pos], append([]c03Op{op}, ops[pos:]...)...)
+	}
+	return ops
+}
+
 type c03History struct {
 	Family string
 	Shape  string
@@ -1066,7 +1232,10 @@ func c03GenHistories(rng *mrand.Rand, thorough bool) []c03History {
 				for _, k := range rng.Perm(n1) {
 					c1 = append(c1, c03Op{Op: "complete", B: 1, Idx: k})
 				}
-				ops := append(c03Merge(s0, s1, rng), c03Merge(c0, c1, rng)...)
+				starts := c03Merge(s0, s1, rng)
+				// one unrelated request right between the starts and the completions, two more anywhere
+				ops := append(append(starts, c03Noise(rng, starts[rng.Intn(len(starts))].B)), c03Merge(c0, c1, rng)...)
+				ops = c03InsertNoise(ops, 2, rng)
 				hs = append(hs, c03History{Family: "starts-then-permutation", Shape: fmt.Sprintf("n=%d+%d,perm=%d", n0, n1, pi), Ops: ops})
 			}
 		}
@@ -1094,6 +1263,8 @@ func c03GenHistories(rng *mrand.Rand, thorough bool) []c03History {
 				ops = append(ops, c03Op{Op: "complete", B: b, Idx: pending[b][j]})
 				done[b] = append(done[b], pending[b][j])
 				pending[b] = append(pending[b][:j], pending[b][j+1:]...)
+			case r == 8 && len(pending[b]) > 0:
+				ops = append(ops, c03Noise(rng, b))
 			case len(done[b]) > 0:
 				ops = append(ops, c03Op{Op: "replay", B: b, Idx: done[b][rng.Intn(len(done[b]))]})
 			}
@@ -1109,6 +1280,112 @@ func c03GenHistories(rng *mrand.Rand, thorough bool) []c03History {
 		hs = append(hs, c03History{Family: "random-walk", Shape: "walk", Ops: ops})
 	}
 	return hs
+}
+
+// noise sends one unrelated request through the browser's jar and checks that the CSRF cookie of every login still
+// pending in that browser survives the response: only the callback that consumes it (and, with the single shared name,
+// a later login start) may remove a pending login's cookie.
+func (cs *c03Case) noise(A *c03Inst, b *vfBrowser, op c03Op, started []*c03Login, attempted map[*c03Login]int, trail []string) {
+	run := cs.Run
+	pre := A.P.Opts.ProxyPrefix
+	sessName := A.P.Opts.Cookie.Name
+	hasSession := false
+	for _, c := range b.Jar.All() {
+		if c03IsSessionName(c.Name, sessName) {
+			hasSession = true
+		}
+	}
+	n := atomic.AddInt64(&c03Seq, 1)
+	var req *vfReq
+	kind := op.Kind
+	switch kind {
+	case "sign-in-page", "protected-unauthenticated":
+		if A.P.Opts.SkipProviderButton {
+			kind = "userinfo" // with --skip-provider-button these two would START a login: not an unrelated request
+		}
+	case "auth-with-garbage-session-cookie":
+		if hasSession {
+			kind = "static-asset" // a second cookie of the session name would be an artificial duplicate
+		}
+	}
+	switch kind {
+	case "sign-out":
+		req = vfGET(pre + "/sign_out")
+	case "sign-in-page":
+		req = vfGET(pre + "/sign_in")
+	case "protected-unauthenticated":
+		req = vfGET(fmt.Sprintf("/app/noise/%d?x=1", n))
+	case "auth-with-garbage-session-cookie":
+		garbage := []string{"garbage", "AAAA|1|BBBB", "djE6|1790000000|c2ln", strings.Repeat("x", 300)}
+		req = vfGET(pre+"/auth").Cookie(sessName, garbage[int(n)%len(garbage)])
+	case "userinfo":
+		req = vfGET(pre + "/userinfo")
+	case "static-asset":
+		req = vfGET(pre + "/static/css/bulma.min.css")
+	case "robots":
+		req = vfGET("/robots.txt")
+	default:
+		req = vfGET("/ping")
+	}
+	held := map[*c03Login]bool{}
+	for _, c := range b.Jar.All() {
+		for _, l := range started {
+			if c.Name == l.CookieName && c.Value == l.CookieValue {
+				held[l] = true
+			}
+		}
+	}
+	resp := b.Send(A.P, req)
+	if hasSession && cs.Cfg.Store == "redis" {
+		// a response that ends the browser's session (sign-out; the sign-in page also clears the session it is shown over)
+		// deletes the Redis entry of that session
+		gone := true
+		for _, c := range b.Jar.All() {
+			if c03IsSessionName(c.Name, sessName) {
+				gone = false
+			}
+		}
+		if gone {
+			atomic.AddInt64(&cs.nKeyDel, 1)
+		}
+	}
+	if resp.Code == 302 && strings.HasPrefix(resp.Location(), cs.W.IdP.Issuer) {
+		c03Rig(run, "[%s] noise request %s unexpectedly started a login", cs.Cfg.Label(), kind)
+		return
+	}
+	still := map[*c03Login]bool{}
+	for _, c := range b.Jar.All() {
+		for _, l := range started {
+			if c.Name == l.CookieName && c.Value == l.CookieValue {
+				still[l] = true
+			}
+		}
+	}
+	pending := 0
+	for _, l := range started {
+		if !held[l] {
+			continue
+		}
+		if attempted[l] == 0 {
+			pending++
+		}
+		if !still[l] {
+			run.Violation("c03:pending-login-csrf-cookie-expired-by-unrelated-response",
+				fmt.Sprintf("[%s,store=%s] after %v: the response to the unrelated request %s %s (status %d) removed the CSRF cookie %s of login %s from the browser (Set-Cookie: %v)", cs.Cfg.Label(), cs.Cfg.Store, trail, req.Method, req.Target, resp.Code, l.CookieName, l.ID, resp.SetCookies()),
+				map[string]interface{}{"flags": A.P.Flags, "history": append([]string{}, trail...), "request": req, "status": resp.Code, "set_cookie": resp.SetCookies(), "login": l.info(), "login_already_brought_to_callback": attempted[l] > 0})
+		}
+	}
+	p := "0"
+	if pending == 1 {
+		p = "1"
+	} else if pending > 1 {
+		p = "2+"
+	}
+	run.Eval(fmt.Sprintf("%s|jar|noise=%s|pending=%s|session=%v", cs.Cfg.Label(), kind, p, hasSession))
+	run.Count("noise_requests", 1)
+	if pending > 0 {
+		run.Count("noise_requests_with_pending_login", 1)
+	}
 }
 
 func c03Histories(cs *c03Case, A *c03Inst, rng *mrand.Rand) {
@@ -1137,6 +1414,10 @@ func c03Histories(cs *c03Case, A *c03Inst, rng *mrand.Rand) {
 				startSeq[l] = oi
 				cs.add(l)
 				run.Count("logins_started", 1)
+				continue
+			}
+			if op.Op == "noise" {
+				cs.noise(A, b, op, started[op.B], attempted, trail)
 				continue
 			}
 			X := started[op.B][op.Idx]
